@@ -22,7 +22,7 @@ import (
 // units (the half units keep the loop's time comparisons half a unit away from their
 // thresholds when the script runs on whole units).
 //
-// input : hashLimit [idsPerBatch] ; N t peer off id,id.. ; R t id,id.. ; I t id b ; S t b ; E t
+// input : hashLimit [idsPerBatch [MaxParallelRequests MaxQueuedBatches]] ; N t peer off id,id.. ; R t id,id.. ; I t id b ; S t b ; E t
 //         N = NotifyAnnounces(peer, ids, now - off units)   R = NotifyReceived(ids)
 //         I = OnlyInterested answers b for id from now on    S = Suspend() answers b from now on
 //         E = end of the script (the fetcher is stopped).  t in units.
@@ -30,7 +30,8 @@ import (
 //         n:<t>:<k>:<ids>:<s>      the loop processes notification k: OnlyInterested answered ids,
 //                                  Suspend() answered s (- = not asked)
 //         p:<t>:<all>:<ids>        timer pass: OnlyInterested(all) answered ids
-//         r:<t>:<k>                the loop has taken the received batch of op k
+//         rs:<t>:<k>  r:<t>:<k>    op k's received report starts being handed over (NotifyReceived splits it
+//                                  into batches of MaxBatch ids) / the loop has taken its last batch
 //         q:<t>:<peer>:<ids>       a request function was called
 //         i:<t>:<id>:<b> s:<t>:<b> the script changed an oracle answer
 //         e:<t>                    end
@@ -76,14 +77,20 @@ func c16IdsTok(ids []int) string {
 	return strings.Join(s, ",")
 }
 
-func c16Parse(in []string) (int, int, []c16Op) {
+// c16Mpr / c16Mqb: MaxParallelRequests and MaxQueuedBatches of the case being parsed (defaults 4, 4)
+func c16Parse(in []string) (int, int, []c16Op, int, int) {
 	hl, _ := strconv.Atoi(in[0])
-	mb := 99
+	mb, mpr, mqb := 99, 4, 4
 	var ops []c16Op
 	i := 1
 	if len(in) > 1 && in[1] != ";" { // optional: real ids per batch (MaxBatch - 1)
 		mb, _ = strconv.Atoi(in[1])
 		i = 2
+		if len(in) > 3 && in[2] != ";" && in[3] != ";" { // optional: MaxParallelRequests, MaxQueuedBatches
+			mpr, _ = strconv.Atoi(in[2])
+			mqb, _ = strconv.Atoi(in[3])
+			i = 4
+		}
 	}
 	i64 := func(s string) int64 { v, _ := strconv.ParseInt(s, 10, 64); return v }
 	for i < len(in) {
@@ -111,7 +118,7 @@ func c16Parse(in []string) (int, int, []c16Op) {
 			panic("bad op " + in[i])
 		}
 	}
-	return hl, mb, ops
+	return hl, mb, ops, mpr, mqb
 }
 
 type c16Run struct {
@@ -186,7 +193,7 @@ func (c *c16Run) suspend() bool {
 	return c.suspended
 }
 
-func c16RunOnce(hashLimit int, mb int, ops []c16Op, c16Unit time.Duration) (obs []string, late bool) {
+func c16RunOnce(hashLimit int, mb int, mpr int, mqb int, ops []c16Op, c16Unit time.Duration) (obs []string, late bool) {
 	c := &c16Run{notInt: map[int]bool{}, seenN: map[int]int{}, lastN: -1, unit: c16Unit}
 	c.cond = sync.NewCond(&c.mu)
 	cfg := itemsfetcher.Config{
@@ -195,8 +202,8 @@ func c16RunOnce(hashLimit int, mb int, ops []c16Op, c16Unit time.Duration) (obs 
 		GatherSlack:         c16Unit + c16Unit/2,
 		HashLimit:           hashLimit,
 		MaxBatch:            mb + 1,
-		MaxParallelRequests: 4,
-		MaxQueuedBatches:    4,
+		MaxParallelRequests: mpr,
+		MaxQueuedBatches:    mqb,
 	}
 	f := itemsfetcher.New(cfg, itemsfetcher.Callback{OnlyInterested: c.onlyInterested, Suspend: c.suspend})
 	reqFn := func(peer int) itemsfetcher.ItemsRequesterFn {
@@ -272,13 +279,21 @@ func c16RunOnce(hashLimit int, mb int, ops []c16Op, c16Unit time.Duration) (obs 
 			}
 			c.mu.Lock()
 			c.gateClosed = true
+			c.log = append(c.log, fmt.Sprintf("rs:%d:%d", c.ms(), k)) // the report is being handed over (it may be split)
 			c.mu.Unlock()
-			_ = f.NotifyReceived(ids)
+			sent := make(chan struct{})
+			go func() { _ = f.NotifyReceived(ids); close(sent) }()
 			deadline := time.Now().Add(2 * time.Second)
 			for time.Now().Before(deadline) {
+				allSent := false
+				select {
+				case <-sent:
+					allSent = true
+				default:
+				}
 				_, nr := f.VerifQueued()
 				c.mu.Lock()
-				if nr == 0 {
+				if allSent && nr == 0 {
 					c.log = append(c.log, fmt.Sprintf("r:%d:%d", c.ms(), k))
 					c.mu.Unlock()
 					break
@@ -458,7 +473,7 @@ func c16RunCase(in []string) []string {
 	if len(in) > 0 && in[0] == "W" {
 		return c16wRun(in)
 	}
-	hl, mb, ops := c16Parse(in)
+	hl, mb, ops, mpr, mqb := c16Parse(in)
 	var obs []string
 	var late bool
 	for attempt := 0; attempt < 3; attempt++ {
@@ -466,7 +481,7 @@ func c16RunCase(in []string) []string {
 		if attempt == 2 { // last attempt: slower clock, proportionally larger tolerances
 			unit = c16UnitDefault * 5 / 2
 		}
-		obs, late = c16RunOnce(hl, mb, ops, unit)
+		obs, late = c16RunOnce(hl, mb, mpr, mqb, ops, unit)
 		if !late {
 			vu.Stat("attempts_" + strconv.Itoa(attempt+1))
 			return obs
@@ -491,9 +506,15 @@ func c16Gen(r *rand.Rand, n int, tier string, emit func(...string)) {
 			hl = 3 + r.Intn(6)
 		}
 		toks := []string{strconv.Itoa(hl)}
-		if r.Intn(5) == 0 { // MaxBatch splitting: 1 or 2 real ids per batch
-			toks = append(toks, strconv.Itoa(1+r.Intn(2)))
+		smallBatch := 0
+		if r.Intn(3) == 0 { // MaxBatch splitting: 1 or 2 real ids per batch (MaxBatch = 2 or 3)
+			smallBatch = 1 + r.Intn(2)
+			toks = append(toks, strconv.Itoa(smallBatch))
 			vu.Stat("family_maxbatch")
+			if r.Intn(2) == 0 { // one worker / one queued batch: every queue of the fetcher at its smallest
+				toks = append(toks, strconv.Itoa(1+r.Intn(2)), strconv.Itoa(1+r.Intn(2)))
+				vu.Stat("family_small_queues")
+			}
 		}
 		t := int64(0)
 		lastWasN := false
@@ -543,6 +564,27 @@ func c16Gen(r *rand.Rand, n int, tier string, emit func(...string)) {
 			case x < 13:
 				cnt := 1 + r.Intn(2)
 				var ids []int
+				if smallBatch > 0 && r.Intn(4) != 0 {
+					// a report of exactly MaxBatch, MaxBatch+1 or 2*MaxBatch distinct items: NotifyReceived splits it
+					mbReal := smallBatch + 1
+					want := []int{mbReal, mbReal + 1, 2 * mbReal}[r.Intn(3)]
+					seen := map[int]bool{}
+					for _, y := range announced {
+						if !seen[y] && len(ids) < want {
+							seen[y] = true
+							ids = append(ids, y)
+						}
+					}
+					for y := 1; y <= 6 && len(ids) < want; y++ {
+						if !seen[y] {
+							seen[y] = true
+							ids = append(ids, y)
+						}
+					}
+					r.Shuffle(len(ids), func(a, b int) { ids[a], ids[b] = ids[b], ids[a] })
+					vu.Stat("received_split")
+					cnt = 0
+				}
 				for j := 0; j < cnt; j++ {
 					ids = append(ids, announced[r.Intn(len(announced))])
 				}
